@@ -1,3 +1,4 @@
+import PGT.Proofs.ToIdem
 import PGT.Props.C08
 import PGT.Proofs.ToInPlace
 import PGT.Props.C03
@@ -123,5 +124,36 @@ theorem C09_example_runs :
         | _, _ => false)
      | _ => false) = true := by
   decide
+
+-- ------------------------------------------------------------------------------------------------------
+-- a refresh that is repeated changes nothing (every template, every depth; proofs: `Proofs/ToIdem.lean`), and the
+-- diagnostics / hook log accumulated so far never influence what a block does (`Proofs/ToWriter.lean`)
+
+theorem C09_fields_idempotent : ∀ (fs : List Field) (obj : GoVal) (atys : List (String × TfTy)) (st st' : ToSt),
+    ToOKs fs obj atys → ShapedAttrs fs st.attrs atys → copyToFields fs obj (some atys) st = .ok st' →
+    ∀ d h, ∃ h', copyToFields fs obj (some atys) { attrs := st'.attrs, diags := d, hooks := h } =
+      .ok { attrs := st'.attrs, diags := d, hooks := h ++ h' } := by
+  intros; apply toFields_idem <;> assumption
+
+/-- C09, idempotence: after an in-place `CopyTo`, the same call on the result returns the same object, without diagnostics -/
+theorem C09_idempotent (m : Msg) (v : GoVal) (atys : List (String × TfTy)) (u n : Bool) (as : Option (List (String × TfVal)))
+    (r : ToResult)
+    (hv : ToOKs m.fields v atys) (hs : ShapedAttrs m.fields (as.getD []) atys)
+    (h : copyTo m v (.obj u n as (some atys)) = .ok r) :
+    ∃ r', copyTo m v r.tf = .ok r' ∧ r'.tf = r.tf ∧ r'.diags = [] := by
+  intros; apply copyTo_idem <;> assumption
+
+theorem C09_writer : ∀ (fs : List Field) (obj : GoVal) (atys : Option (List (String × TfTy))) (st : ToSt)
+    (d : List Diag) (h : List HookCall),
+    copyToFields fs obj atys (shiftSt d h st) = (copyToFields fs obj atys st).mapO (shiftSt d h) := by
+  intros; apply copyToFields_writer <;> assumption
+
+/-- the resulting attribute map and the ok / panic / stuck status (with its message) do not depend on the initial
+diags / hooks -/
+theorem C09_attrs_independent_of_log (fs : List Field) (obj : GoVal) (atys : Option (List (String × TfTy))) (st1 st2 : ToSt)
+    (h : st1.attrs = st2.attrs) :
+    (copyToFields fs obj atys st1).mapO (·.attrs) = (copyToFields fs obj atys st2).mapO (·.attrs) := by
+  intros; apply copyToFields_attrs_indep <;> assumption
+
 
 end PGT.Props.C09
